@@ -58,6 +58,20 @@ func (m *Model) UpdateFanSpeed(fanSpeed *traits.FanSpeed, opts ...resource.Write
 		return nil, err
 	}
 
+	// A mask-less update replaces the whole value. If it names a preset then the preset decides the index and the
+	// percentage: DeriveValues alone cannot tell re-sending the current preset (index and percentage left at zero) from
+	// a masked update of the index or the percentage, both leave the preset name as it was.
+	if fanSpeed.Preset != "" && resource.ComputeWriteConfig(opts...).UpdateMask == nil {
+		for i, preset := range m.presets {
+			if preset.Name == fanSpeed.Preset {
+				fanSpeed = proto.Clone(fanSpeed).(*traits.FanSpeed)
+				fanSpeed.PresetIndex = int32(i)
+				fanSpeed.Percentage = preset.Percentage
+				break
+			}
+		}
+	}
+
 	opts = append([]resource.WriteOption{resource.InterceptAfter(m.DeriveValues)}, opts...)
 	val, err := m.fanSpeed.Set(fanSpeed, opts...)
 	if val == nil {
@@ -88,8 +102,10 @@ func (m *Model) validateUpdate(fanSpeed *traits.FanSpeed) error {
 func (m *Model) DeriveValues(old, new proto.Message) {
 	oldVal := old.(*traits.FanSpeed)
 	newVal := new.(*traits.FanSpeed)
-	if oldVal.Preset != newVal.Preset {
+	if newVal.Preset != "" && oldVal.Preset != newVal.Preset {
 		// preset updated, keep the index and percentage in sync
+		// (an update that names no preset, like a mask-less update of only the index or the percentage, is not a
+		// preset change: the preset is derived from the index or the percentage below)
 		for i, preset := range m.presets {
 			if preset.Name == newVal.Preset {
 				newVal.PresetIndex = int32(i)
@@ -114,7 +130,7 @@ func (m *Model) DeriveValues(old, new proto.Message) {
 		return
 	}
 
-	if oldVal.Percentage != newVal.Percentage {
+	if oldVal.Percentage != newVal.Percentage || newVal.Preset == "" {
 		// try to find a preset that matches, and update the index and preset
 		newVal.PresetIndex = -1
 		newVal.Preset = ""
